@@ -290,6 +290,15 @@ def run_correspondence(ck, known):
                 rewritten[c["site"]] = rewritten.get(c["site"], 0) + 1
             if any(ph in bytes.fromhex(c["val"]) for ph in (b"$1", b"?", b"@")):
                 ph_wire[c["site"]] = ph_wire.get(c["site"], 0) + 1
+    # a request string that makes the DRIVER refuse a statement (a bind placeholder without argument, mixed placeholder formats) is
+    # interpreted as syntax by the driver: a concrete failing request, whatever would have been sent
+    refused = [r for tag, path in runs for r in load(path)[2] if str(r.get("rej", "")).startswith("driver refused the statement")]
+    ck.obligation("no request string makes the database driver refuse a statement of the service (bind placeholder without argument, mixed placeholder formats)",
+                  not refused, "; ".join("%s %r: %s" % (r["site"], bytes.fromhex(r["val"]), r["rej"]) for r in refused[:4]))
+    if refused:
+        worst = min(refused, key=lambda r: len(r["val"]))
+        ck.violation({"property": "C10", "kind": "the driver's client-side bind reads the request string as placeholder syntax and refuses the statement (nothing is sent): the value is not confined to a string literal",
+                      "case": describe(worst), "replay": "harness sqlinject --cases <file with {site,val} of this case>"})
     svc = sorted(st for st in wire_sites if st.split(".")[0] in ("labels", "tempo", "prof"))
     thin_w = sorted(st for st in wire_sites if ".ident." not in st and ph_wire.get(st, 0) < 2)
     ck.obligation("statements handed to a database session are observed BEHIND the real clickhouse-go driver (repository's StableSqlxDBWrapper -> database/sql -> clickhouse-go HTTP -> recording endpoint): %d statements at %d positions (%d service positions); each has bind-placeholder strings ($1, ?, @name) among its values; calls with bind arguments: %d, statements the driver rewrote: %d"
@@ -635,13 +644,16 @@ def run_sites(ck):
         rows = []
         for f, ln in bad[:5]:
             st = [s for s in meta["sites"] if s["file"] == f and str(s["line"]) == ln]
-            rows.append("%s:%s %s" % (f, ln, json.dumps(st[0]["pieces"]) if st else ""))
+            # several sites may share a line (the statement of a session call and its bind arguments): the one with an unclassified part first
+            st.sort(key=lambda s: 0 if any(p.get("k") == "KUnclassified" for p in s["pieces"]) else 1)
+            rows.append("%s:%s %s" % (f, ln, json.dumps(st[0]["pieces"])[:500] if st else ""))
         detail = "; ".join(rows)
     ck.obligation("every SQL construction site (%d) formats only classified material and keeps quoted values where a quote opens a literal" % len(meta["sites"]),
                   not bad, detail)
     if bad:
         f, ln = bad[0]
         st = [s for s in meta["sites"] if s["file"] == f and str(s["line"]) == ln]
+        st.sort(key=lambda s: 0 if any(p.get("k") == "KUnclassified" for p in s["pieces"]) else 1)
         ck.violation({"property": "C10", "kind": "SQL text is built from an argument of unknown provenance, or a quoted value is placed where a quote does not open a literal",
                       "site": st[0] if st else {"file": f, "line": ln}, "all_unsafe_sites": bad,
                       "explanation": "model/SqlSites.v safe_site rejects this site of coq/gen/GenC10Sites.v (theorem all_sql_sites_classified no longer holds)"},
@@ -928,6 +940,11 @@ def run_replay(ck):
         return
     if rej:
         ck.log("the request is rejected before any statement: %s" % rej[0].get("rej"))
+        if str(rej[0].get("rej", "")).startswith("driver refused the statement"):
+            ck.obligation("replayed input %r at %s: the driver sends the statement" % (bytes.fromhex(c["val"]), c["site"]), False, rej[0]["rej"])
+            ck.violation({"property": "C10", "kind": "the driver's client-side bind reads the request string as placeholder syntax and refuses the statement",
+                          "case": describe(rej[0])})
+            return
     verd = {}
     if cases:
         verd, out = eval_cases(ck, "C10_replay", bases, cases)
